@@ -8,12 +8,65 @@ use serde::{Deserialize, Serialize};
 
 use crate::driver::*;
 use crate::process;
+use crate::stdproc::StdProc;
+
+/// A VM process over either state type.
+enum Proc {
+    Sim(VmProc),
+    Std(StdProc),
+}
+
+impl Proc {
+    fn exec_line(&mut self, text: &str) -> LineObs {
+        match self {
+            Proc::Sim(p) => p.exec_line(text),
+            Proc::Std(p) => p.exec_line(text),
+        }
+    }
+    fn checkpoint(&self, f: Format) -> Result<Vec<u8>, String> {
+        match self {
+            Proc::Sim(p) => p.checkpoint(f),
+            Proc::Std(p) => p.checkpoint(f),
+        }
+    }
+    fn env_cursor(&self) -> EnvCursor {
+        match self {
+            Proc::Sim(p) => p.env_cursor(),
+            Proc::Std(_) => EnvCursor::default(),
+        }
+    }
+    fn fs_snapshot(&self) -> Vec<(PathBuf, Vec<u8>)> {
+        match self {
+            Proc::Sim(p) => p.fs_snapshot(),
+            Proc::Std(_) => vec![],
+        }
+    }
+    fn restore(
+        real_state: bool,
+        format: Format,
+        bytes: &[u8],
+        spec: &EnvSpec,
+        cursor: &EnvCursor,
+        files: &[(PathBuf, Vec<u8>)],
+        line: usize,
+    ) -> Result<Proc, String> {
+        if real_state {
+            StdProc::restore(format, bytes).map(Proc::Std)
+        } else {
+            VmProc::restore(format, bytes, spec, cursor, files, line).map(Proc::Sim)
+        }
+    }
+}
 
 #[derive(Clone, Debug, Default, Serialize, Deserialize, PartialEq, Eq)]
 pub struct Job {
     pub lines: Vec<String>,
     pub env: EnvSpec,
     pub clock: Clock,
+    /// Run on the repository's own `StdLibState` instead of the harness-owned `SimState`
+    /// (only for workloads that touch neither files nor the terminal nor interaction modes).
+    #[serde(default)]
+    pub real_state: bool,
 }
 
 #[derive(Clone, Debug, Serialize, Deserialize, PartialEq, Eq)]
@@ -148,9 +201,18 @@ fn run_segment(si: SegIn) -> SegOut {
         fatal: None,
     };
     let (mut p, mut cur, mut generation) = match &si.start {
-        None => (VmProc::boot(&si.job.env, &si.job.clock), 0usize, 0usize),
+        None => (
+            if si.job.real_state {
+                Proc::Std(StdProc::boot(&si.job.clock))
+            } else {
+                Proc::Sim(VmProc::boot(&si.job.env, &si.job.clock))
+            },
+            0usize,
+            0usize,
+        ),
         Some(c) => {
-            match VmProc::restore(
+            match Proc::restore(
+                si.job.real_state,
                 c.format,
                 &c.bytes,
                 &si.job.env,
@@ -175,7 +237,7 @@ fn run_segment(si: SegIn) -> SegOut {
         }
     };
     let nlines = si.job.lines.len();
-    let mut exec_lines = |p: &mut VmProc,
+    let exec_lines = |p: &mut Proc,
                           cur: &mut usize,
                           n: usize,
                           generation: usize,
@@ -237,7 +299,8 @@ fn run_segment(si: SegIn) -> SegOut {
                 Ok(bytes) => {
                     out.sizes.push(bytes.len());
                     out.counts.by_format[*format as usize] += 1;
-                    match VmProc::restore(
+                    match Proc::restore(
+                        si.job.real_state,
                         *format,
                         &bytes,
                         &si.job.env,
